@@ -70,7 +70,13 @@ def snapItems (m : Mon) (bt : MB) (afterRet : Bool) : Nat → List Char → MR
     match m.getI bt.bid k with
     | none => .error s!"snapshot of an unknown item {bt.bid}.{k}"
     | some it =>
-      if c == 'X' then .error s!"gai_error of item {bt.bid}.{k} is neither EAI_INPROGRESS nor getaddrinfo's answer"
+      if c == 'U' then
+        -- EAI_INPROGRESS on an item the caller handed in with that very value in the internal field
+        if it.stored then .error s!"item {bt.bid}.{k} shows EAI_INPROGRESS although its result was already stored"
+        else if it.last == 'D' then .error s!"gai_error of item {bt.bid}.{k} went back from 'D' to EAI_INPROGRESS"
+        else if afterRet && bt.mode == .wait then .error s!"item {bt.bid}.{k} is not final after getaddrinfo_a(GAI_WAIT) returned"
+        else snapItems m bt afterRet (k + 1) rest
+      else if c == 'X' then .error s!"gai_error of item {bt.bid}.{k} is neither EAI_INPROGRESS nor getaddrinfo's answer"
       else if chRank c < chRank it.last then
         .error s!"gai_error of item {bt.bid}.{k} went back from '{it.last}' to '{c}'"
       else if c == 'D' && it.rets == 0 then .error s!"item {bt.bid}.{k} shows a final status before it was resolved"
